@@ -16,5 +16,6 @@ import (
 	_ "verif/checks/c12"
 	_ "verif/checks/c13"
 	_ "verif/checks/c16"
+	_ "verif/checks/c17"
 	_ "verif/checks/c18"
 )
